@@ -96,6 +96,11 @@ def planted_sets(n):
         # a total assignment is a set of literals: any order, tuples as well
         out.append(('one-unsorted', [mixed[::-1]]))
         out.append(('two-unsorted', [mixed[1:] + mixed[:1], tuple(comp[::-1])]))
+    if n >= 1:
+        # the same literal listed twice: an assignment is a set of literals
+        out.append(('one-repeated', [mixed + mixed[:1]]))
+        if n >= 2:
+            out.append(('two-repeated', [mixed[:1] + mixed, comp[:-1] + comp[-1:] * 2]))
     return out
 
 
